@@ -32,7 +32,12 @@ func init() {
 						d = sys.get(k * 2)
 					} else {
 						r := c.Rand()
-						d = randomCase(r, gen.New(r), false)
+						g := gen.New(r)
+						if r.Intn(2) == 0 {
+							// names beyond [a-c]: quote style, dot vs bracket and escaping only matter for such names
+							g.Keys = RichKeys
+						}
+						d = randomCase(r, g, false)
 					}
 					runC18(c, d, nSp)
 				},
